@@ -92,7 +92,7 @@ package tmi
 // ---- position changes (C04): voting height is committing height + 1, rounds move forward ----
 
 //@ func kState.incrementVotingRound
-//@   property C04 C11
+//@   property C04 C11 C01 C05
 //@   requires s.NextRound.Height == s.Voting.Height && s.NextRound.Round == s.Voting.Round + 1
 //@   requires s.Voting.Round < MAXU32 - 1 && s.NextRound.Version < MAXU32 && s.Voting.Version < MAXU32
 //@   ensures height-kept: s.Voting.Height == old(s.Voting.Height) && s.NextRound.Height == old(s.Voting.Height)
@@ -113,7 +113,7 @@ package tmi
 //@       old(s.Voting.VoteSummary.PrevoteBlockPower)[*], old(s.Voting.VoteSummary.PrecommitBlockPower)[*], old(s.Voting.ProposedHeaders)[*]
 
 //@ func kState.AdvanceVotingRound
-//@   property C04 C11
+//@   property C04 C11 C01 C05
 //@   requires s.NextRound.Height == s.Voting.Height && s.NextRound.Round == s.Voting.Round + 1
 //@   requires s.Voting.Round < MAXU32 - 1 && s.NextRound.Version < MAXU32 && s.Voting.Version < MAXU32
 //@   ensures height-kept: s.Voting.Height == old(s.Voting.Height) && s.NextRound.Height == old(s.Voting.Height)
@@ -137,7 +137,7 @@ package tmi
 //@       s.GossipViewManager.NilVotedRound, s.GossipViewManager.pendingRoundSessionChanges, s.GossipViewManager.pendingRoundSessionChanges[*], s.GossipViewManager.inGrace[*]
 
 //@ func kState.JumpVotingRound
-//@   property C04 C11
+//@   property C04 C11 C01 C05
 //@   requires s.NextRound.Height == s.Voting.Height && s.NextRound.Round == s.Voting.Round + 1
 //@   requires s.Voting.Round < MAXU32 - 1 && s.NextRound.Version < MAXU32 && s.Voting.Version < MAXU32
 //@   ensures height-kept: s.Voting.Height == old(s.Voting.Height) && s.NextRound.Height == old(s.Voting.Height)
